@@ -247,7 +247,7 @@ fn join(lines: &[Vec<u8>]) -> Vec<u8> {
 }
 
 pub fn h_records() {
-    let lines = gen_lines(sym::bound(3, 4));
+    let lines = gen_lines(3);
     let text = join(&lines);
     let got = ScanIndex::from_reader(&text[..]);
     let want = spec_scan(&lines);
